@@ -1,5 +1,5 @@
 SPECIFICATION Spec
 CONSTANTS
-  KeyIds = {1, 2, 3, 4, 5, 6, 7}
+  KeyIds = {1, 2, 3, 4, 6, 7}
   ValIds = {1, 7}
 INVARIANTS TypeOK InvCanon InvLookup InvEmbedded InvMinimal
